@@ -25,6 +25,10 @@ ERRS = [
     ("unterminated-comment-indented", "   /* never closed", 3, "scan"),
     # an unterminated string that ends in a backslash, followed by a line that holds a quoted string
     ("unterminated-string-backslash", ".ascii 'C:\\", 7, "scan"),
+    # a statement continued over several lines: the report names the line the statement starts on
+    ("undefined-data-continued", ".dw 1,\n  2,\n  undefined_sym_zq", None, "node"),
+    ("undefined-db-continued", ".db 1, 2,\n undefined_sym_zq, 4", None, "node"),
+    ("undefined-pointer-continued", ".pointer 0x018000,\nundefined_sym_zq", None, "node"),
 ]
 
 
@@ -76,6 +80,7 @@ def run(ctx):
                                  [".macro unused_zq(a) {", ".db a", "}"],
                                  # characters that str.splitlines() treats as line breaks but the scanner does not
                                  ["nop ; end of page \x0c next page"], ["; a\u2028b \x85 c"], [".ascii 'x\x0bx\x1cy'"], ["; v\x1dt\x1e\u2029"],
+                                 ["; dos header\r", "; second\r", ";\r"], ["/* dos\r", "comment\r", "*/"], ["nop ; eol\r", "; x\r"],
                                  ["/* page \x0c break", "second \u2028 line \x85 */"], ["/* one line \x0b\x1c\x1d\x1e\u2029 */"], ["nop", "/* a", "b\x0c */"]])
             lines = prefix + lines
             positions = list(range(len(prefix), len(lines) + 1))   # after the prefix (never inside its comment)
@@ -118,7 +123,7 @@ def run(ctx):
             if rep[0] != how:
                 s.count("other-error-first")
                 continue
-            exp_line_text = stmt
+            exp_line_text = stmt.split("\n")[0]
             inp = {"src": pr["src"], "files": {k: v for k, v in pr["files"].items() if k == "inc_zq.s"}, "inserted": stmt, "at_line": pos, "file": fname}
             if how == "node" and rep[4] != exp_line_text:
                 # an undefined symbol elsewhere in the program cannot occur (the base program is valid); a different quoted
@@ -127,7 +132,7 @@ def run(ctx):
                 continue
             if rep[1] != fname or rep[2] != pos or rep[4] != exp_line_text or (how == "scan" and rep[3] != col):
                 # lexical errors raised by an *earlier* line of the same kind are impossible in a valid base program
-                s.violate(inp, (fname, pos, col if how == "scan" else None, stmt), rep[1:], "reported file / line / column / quoted line differ from the erroneous statement")
+                s.violate(inp, (fname, pos, col if how == "scan" else None, exp_line_text), rep[1:], "reported file / line / column / quoted line differ from the erroneous statement")
         s.sample({"src": progs[0]["src"][:300], "meta": str(progs[0]["meta"])})
 
         # one Program object used for two sources: the second source's errors are located in the second source
@@ -135,7 +140,7 @@ def run(ctx):
         from a816.program import Program
         for i in range(24 if tier == "quick" else 240):
             first = gen_program.generate(rng, run_.drv, rom="low_rom", features={"incbin": False, "usermap": False})["src"]
-            kind, stmt, col, how = rng.choice(ERRS)
+            kind, stmt, col, how = rng.choice([e for e in ERRS if "\n" not in e[1]])
             pre = ["; c"] * rng.randrange(0, 9) + ["*=0x038000"] + ["nop"] * rng.randrange(0, 6)
             second = "\n".join(pre + [stmt] + ([".ascii 'hello'"] if kind == "unterminated-string-backslash" else []) + ["rts"]) + "\n"
             pos = len(pre)
@@ -175,7 +180,7 @@ def run(ctx):
         import os
         from props import frontends
         for i in range(20 if tier == "quick" else 200):
-            kind, stmt, col, how = rng.choice([e for e in ERRS if e[0] != "unterminated-string-backslash"])
+            kind, stmt, col, how = rng.choice([e for e in ERRS if e[0] != "unterminated-string-backslash" and "\n" not in e[1]])
             lead = [rng.choice(["", "", "   ", "\t"]) for _ in range(rng.randrange(0, 4))]
             pre = lead + ["*=0x038000"] + ["nop"] * rng.randrange(0, 4)
             text = "\n".join(pre + [stmt, "rts"]) + rng.choice(["\n", "", "\n\n", "  \n"])
@@ -253,7 +258,7 @@ def run(ctx):
         # the command line with -D definitions: locations still refer to the lines of the user's file
         s4 = core.Stream("S4-cli-defines", "an erroneous statement at a known line of a file assembled by the x816 command line with 0..3 -D NAME=VALUE definitions (used or unused by the program), both output formats: the reported file, zero-based line, column and quoted text are those of the statement in the user's file, whatever was defined on the command line")
         for i in range(10 if tier == "quick" else 120):
-            kind, stmt, col, how = rng.choice([e for e in ERRS if e[0] not in ("unterminated-string-backslash",)])
+            kind, stmt, col, how = rng.choice([e for e in ERRS if e[0] not in ("unterminated-string-backslash",) and "\n" not in e[1]])
             ndef = rng.choice([0, 1, 2, 3, 3])
             defs = [(f"dz{k}", rng.randrange(0, 200)) for k in range(ndef)]
             pre = ["; c"] * rng.randrange(0, 4) + ["*=0x038000"] + [f".db dz{k}" for k in range(ndef) if rng.random() < 0.6] + ["nop"] * rng.randrange(0, 4)
